@@ -1463,6 +1463,44 @@ def c06(res, tier, seed, lib):
                 continue
             same = all(m0.group(i + 1) == m1.group(i + 1) for i in keep)
             res.check(same, "set-keeps-other-coordinates", "cli:set", inp, "input prints %r, result prints %r" % (out0.strip(), out.strip()))
+    # lighten / darken / saturate / desaturate / rotate at the command line: the amount is added as
+    # given (no rescaling), the channel clamped, everything else kept
+    cols = ["hsl(%d,%.1f%%,%.1f%%)" % (rnd.randrange(360), rnd.uniform(5, 95), rnd.uniform(5, 95)) for _ in range(4 if tier != "thorough" else 40)]
+    cols += ["black", "white", "hsla(100,50%,50%,0.5)"]
+    cinf = infos(cols)
+    for cmd, ch, sign in [("lighten", 2, 1), ("darken", 2, -1), ("saturate", 1, 1), ("desaturate", 1, -1)]:
+        for amt in ["0", "0.1", "0.25", "1", "1.5", "2", "50", "100", "1000", "0.999", "1.0001"]:
+            rc, out, err = run_cli([cmd, amt] + cols)
+            lines = out.decode().split("\n")[:-1]
+            inp0 = "%s %s" % (cmd, amt)
+            res.check(rc == 0 and len(lines) == len(cols), "exit-0", "cli:" + cmd, inp0, "rc=%s %d lines %r" % (rc, len(lines), err[-100:]))
+            if len(lines) != len(cols):
+                continue
+            for ctext, ci, ln, g in zip(cols, cinf, lines, infos(lines)):
+                inp = "%s %s %s" % (cmd, amt, ctext)
+                res.case(inp)
+                if not (g.ok and ci.ok):
+                    res.fail("output-parses", "cli:" + cmd, inp, ln)
+                    continue
+                a, b = wire_floats(ci), wire_floats(g)
+                want = min(1.0, max(0.0, a[ch] + sign * float(amt)))
+                res.check(abs(b[ch] - want) <= 0.00051, "cli-amount-added-and-clamped", "cli:" + cmd, inp, "printed %s: channel %r, expected %r" % (ln, b[ch], want))
+                other = 3 - ch
+                res.check(abs(b[other] - a[other]) <= 0.00051 and abs(b[3] - a[3]) <= 0.00051, "cli-other-channels-kept", "cli:" + cmd, inp, "printed %s from %r" % (ln, a))
+    for amt in ["0", "30", "180", "360", "720", "400", "0.5"]:
+        rc, out, err = run_cli(["rotate", amt] + cols)
+        lines = out.decode().split("\n")[:-1]
+        if rc != 0 or len(lines) != len(cols):
+            res.fail("exit-0", "cli:rotate", "rotate " + amt, "rc=%s" % rc)
+            continue
+        for ctext, ci, ln, g in zip(cols, cinf, lines, infos(lines)):
+            inp = "rotate %s %s" % (amt, ctext)
+            res.case(inp)
+            if g.ok and ci.ok:
+                a, b = wire_floats(ci), wire_floats(g)
+                d = abs((b[0] - (a[0] + float(amt))) % 360.0)
+                res.check(min(d, 360.0 - d) <= 0.5001, "cli-rotate-adds-mod-360", "cli:rotate", inp, "printed %s: hue %r from %r" % (ln, b[0], a[0]))
+                res.check(abs(b[1] - a[1]) <= 0.00051 and abs(b[2] - a[2]) <= 0.00051, "cli-other-channels-kept", "cli:rotate", inp, ln)
     case_oracle(res, "cli:set", lambda t: ["set", t, "0.4", "#4080c0", "rgba(200,100,50,0.5)"], SET_PROPS if tier == "thorough" else SET_PROPS[::2])
     fm = model_batch(ops)
     # the model answers with a wire colour; print it through the model's hsl formatter
